@@ -1,0 +1,10 @@
+//go:build verif
+
+// Contracts for raw addresses (C16, C09). Comment-only.
+package address
+
+//@ func Address.UnmarshalBinary
+//@   props C16 C09
+//@   safety bounds nil
+//@   ensures (err == nil) == (len(data) == Size)
+//@   note an address decodes from exactly 21 bytes (version byte + truncated hash)
